@@ -805,4 +805,50 @@ Section WorldProofs.
     intros h how n x. destruct (wfinal_ok h) as [I R].
     destruct (world_step_refines _ _ (WAdhoc how n x) I R) as (_ & _ & O). exact O.
   Qed.
+  (* renders: get_template + render (any context, sink, thread), ad-hoc renders, renders with a failing
+     or panicking context *)
+  Definition is_render (o : wop) : bool :=
+    match o with
+    | WRender _ _ _ | WAdhoc _ _ _ | WRenderBadCtx _ _ _ | WStore (OGet _ _) => true
+    | _ => false
+    end.
+
+  Lemma spec_render_keeps sw o n kx rc now : is_render o = true -> tpl (sc (scur sw)) n = Some kx ->
+    sobserve (scur (fst (sstep sw o))) rc n now = sobserve (scur sw) rc n now.
+  Proof.
+    intros Hr Hn.
+    assert (G : forall n' now', let c' := fst (spec_get tmpl compile loader (sc (scur sw)) n' now') in
+                tpl c' n = Some kx).
+    { intros n' now'. pose proof (spec_untouched_keeps tmpl compile loader (sc (scur sw)) n kx (OGet n' now') Hn eq_refl) as K.
+      unfold spec_step in K. destruct (spec_get tmpl compile loader (sc (scur sw)) n' now'); exact K. }
+    assert (Obs : forall c', tpl c' n = Some kx ->
+              sobserve {| sc := c'; sr := sr (scur sw) |} rc n now = sobserve (scur sw) rc n now).
+    { intros c' H'. unfold s_observe, spec_get. cbn [sc sr]. rewrite H', Hn. destruct kx as [k x]. reflexivity. }
+    destruct o as [so|rc' n' now'|k nm v|k nm| | |how n' x|n' now' p]; cbn [is_render] in Hr; try discriminate;
+      cbn [sworld_step].
+    - destruct so; try discriminate. unfold spec_step. specialize (G n0 now0). cbn zeta in G.
+      destruct (spec_get tmpl compile loader (sc (scur sw)) n0 now0) as [c' r]. cbn [fst scur]. apply Obs. exact G.
+    - specialize (G n' now'). cbn zeta in G.
+      destruct (spec_get tmpl compile loader (sc (scur sw)) n' now') as [c' r]. cbn [fst scur]. apply Obs. exact G.
+    - reflexivity.
+    - specialize (G n' now'). cbn zeta in G.
+      destruct (spec_get tmpl compile loader (sc (scur sw)) n' now') as [c' r]. cbn [fst scur]. apply Obs. exact G.
+  Qed.
+
+  (* A render leaves no trace: whatever is rendered - any stored or loader-served name, any ad-hoc
+     source, with any context, into a String or into a failing writer, on this or another thread,
+     successfully or failing at compile time, at run time, in the sink or in the caller's Serialize
+     impl - every name the environment holds renders afterwards, in every context, exactly as before.
+     (A name it does not hold yet may get pinned by its first request: loader_source_pinned.) *)
+  Theorem render_leaves_no_trace_proof : forall h o, is_render o = true ->
+    forall rc n now kx, tpl (abs (st _ (cur _ (wfinal h)))) n = Some kx ->
+    wobserve (hp _ (fst (wstep (wfinal h) o))) (cur _ (fst (wstep (wfinal h) o))) rc n now =
+    wobserve (hp _ (wfinal h)) (cur _ (wfinal h)) rc n now.
+  Proof.
+    intros h o Ho rc n now kx Hn. destruct (wfinal_ok h) as [I R].
+    destruct (world_step_refines _ _ o I R) as (I' & R' & _).
+    pose proof (obs_agree_of _ _ I R) as [G _]. pose proof (obs_agree_of _ _ I' R') as [G' _].
+    rewrite G', G. apply spec_render_keeps with (kx := kx); auto.
+    destruct R as [[(St & _) _] _]. rewrite <- St. exact Hn.
+  Qed.
 End WorldProofs.
